@@ -114,7 +114,7 @@ func stressUCI(seed int64, tier string) {
 		rounds = 400
 	}
 	viol := 0
-	answered, gos, stale := 0, 0, 0
+	answered, gos, stale, deaths := 0, 0, 0, 0
 	report := func(prop, key, script, msg string) {
 		viol++
 		fmt.Printf("IMPLVIOL uci %s :: %s prop=%s key=%s\n", script, msg, prop, key)
@@ -191,11 +191,23 @@ func stressUCI(seed int64, tier string) {
 			}
 			return ret
 		}
+		// dead: the driver has closed its output; nothing more will ever be answered
+		dead := func() bool {
+			select {
+			case <-closed:
+				return true
+			default:
+				return false
+			}
+		}
 		waitBest := func(n int, d time.Duration) bool {
 			deadline := time.Now().Add(d)
 			for time.Now().Before(deadline) {
 				if len(bests()) >= n {
 					return true
+				}
+				if dead() {
+					break // no point in waiting out the deadline
 				}
 				time.Sleep(2 * time.Millisecond)
 			}
@@ -242,7 +254,10 @@ func stressUCI(seed int64, tier string) {
 			default:
 				mcmds = append(mcmds, "j")
 			}
-			in <- l
+			select {
+			case in <- l:
+			case <-closed: // a driver that has shut down reads nothing
+			}
 		}
 		nap := func(max int) {
 			if max > 0 {
@@ -257,7 +272,7 @@ func stressUCI(seed int64, tier string) {
 		owed := 0 // bestmoves that must have been emitted so far
 		nGo := 0
 		steps := 4 + r.Intn(6)
-		quit := false
+		quit, died := false, false
 		for k := 0; k < steps && !quit; k++ {
 			// every step starts from a settled state: the number of bestmoves equals the number owed
 			base := len(bests())
@@ -391,6 +406,14 @@ func stressUCI(seed int64, tier string) {
 			}
 			// settle, then check the step
 			time.Sleep(15 * time.Millisecond)
+			if dead() {
+				// neither quit nor the end of input has been sent: every line of these scripts is one a driver
+				// must survive, so a closed output is a shutdown nobody asked for; the rest of the script
+				// would only wait for answers that cannot come
+				report("C16", "driver-exit", strings.Join(script, "; "), label+": the driver closed its output although neither quit nor the end of input was sent")
+				died = true
+				break
+			}
 			got := bests()
 			if len(got) > owed {
 				report("C04", "duplicate", strings.Join(script, "; "), fmt.Sprintf("%s: %d bestmove lines for %d answered searches", label, len(got), owed))
@@ -420,6 +443,14 @@ func stressUCI(seed int64, tier string) {
 			}
 		}
 		gos += nGo
+		if died {
+			deaths++
+			if deaths >= 3 {
+				fmt.Printf("stress stopped after %d rounds: the driver shut down unasked in %d of them\n", round+1, deaths)
+				break
+			}
+			continue // nothing left to observe: no trace for the acceptor, no shutdown to wait for
+		}
 		if !quit {
 			if r.Intn(2) == 0 {
 				send("go infinite")
